@@ -45,8 +45,11 @@ let s_li (l : linkinfo) =
 
 let s_dev (d : device) = "n=" ^ hex_of_bytes d.dev_ifname ^ ";ifi=" ^ s_ifi d.dev_ifi ^ ";" ^ s_li d.dev_li
 
-let pfail line clause = incr n_mismatch; Printf.printf "PFAIL %s || clause=%s\n" (if String.length line > 600 then String.sub line 0 600 ^ "..." else line) clause
 let short line = if String.length line > 600 then String.sub line 0 600 ^ "..." else line
+let n_pfail = ref 0
+let pfail line clause =
+  incr n_mismatch; incr n_pfail;
+  if !n_pfail <= 50 then Printf.printf "PFAIL %s || clause=%s\n" (short line) clause
 let mism line expected = mismatch (short line) (short expected)
 
 (* three-way layout comparison + round trip of the implementation's own image *)
